@@ -101,24 +101,36 @@ def rule_ku(ctx):
                   "reply to update_requested is update_not_requested",
                   "a requested KeyUpdate must be answered with update_not_requested (anything else "
                   "ping-pongs updates forever)", fi.loc(reply[0].ast))
-    dom = {"request.message_type": [0, 1, 2, 7], "KeyUpdateMessageType.update_not_requested": [0],
-           "KeyUpdateMessageType.update_requested": [1]}
+    # what the handler does for each message type (walk of the function with the type bound; the update
+    # and the reply are recognised as effects, whatever shape the type tests have)
+    from .common import spec_rows
+    spec_rows(ctx, R, fi.qname, [
+        dict(what="keys updated for the two defined KeyUpdate types, reply exactly for update_requested, anything else fatal",
+             dom={"request.message_type": [0, 1, 2, 7], "KeyUpdateMessageType.update_not_requested": [0],
+                  "KeyUpdateMessageType.update_requested": [1]},
+             abort=lambda e: e["request.message_type"] not in (0, 1),
+             effects={"read keys updated": (lambda st_: any(call_name(c) == "calcTLS1_3KeyUpdate_sender" for c in calls_in(st_)),
+                                            lambda e: e["request.message_type"] in (0, 1))},
+             msg="the read keys must be updated exactly for the two defined KeyUpdate types and a KeyUpdate with an "
+                 "unknown message_type must end in a fatal alert")])
     tests = [t for t in g.nodes if t.kind == "test"]
-    upd = [t for t in tests if "update_not_requested" in norm(t.expr)]
-    rep = [t for t in tests if t not in upd and "update_requested" in norm(t.expr)]
-    if upd:
-        check_cond(ctx, R, fi, upd[0].ast, upd[0].expr, dom, lambda e: e["request.message_type"] in (0, 1),
-                   "keys updated for update_not_requested and update_requested only",
-                   "the read keys must be updated exactly for the two defined KeyUpdate types", closed=True)
-        bad = dead_edge_labels(g, upd[0], [g.exit])
-        ctx.check(R, "F" in bad, fi.qname, "unknown KeyUpdate type is fatal",
-                  "a KeyUpdate with an unknown message_type must end in a fatal alert", fi.loc(upd[0].ast))
-    else:
-        ctx.fail(R, fi.qname, "KeyUpdate type test", "type test not found", fi.loc())
-    if rep:
-        check_cond(ctx, R, fi, rep[0].ast, rep[0].expr, dom, lambda e: e["request.message_type"] == 1,
-                   "reply only when update_requested", "a reply KeyUpdate is due exactly for update_requested",
-                   closed=True)
+    if reply:
+        # the reply is sent exactly for update_requested: decided on the edge structure with the type bound
+        from ..condeval import ev, Unknown
+        for mt, want in ((0, False), (1, True)):
+            env = {"request.message_type": mt, "KeyUpdateMessageType.update_not_requested": 0,
+                   "KeyUpdateMessageType.update_requested": 1}
+            cut = set()
+            for t in tests:
+                try:
+                    v = bool(ev(t.expr, env))
+                    cut.add((t.id, "F" if v else "T"))
+                except (Unknown, TypeError):
+                    pass
+            seen = g.reach([g.entry], cut=cut, follow_exc=False)
+            ctx.check(R, (reply[0].id in seen) == want, fi.qname,
+                      "reply KeyUpdate %s for message_type %d" % ("sent" if want else "not sent", mt),
+                      "a reply KeyUpdate is due exactly for update_requested", fi.loc(reply[0].ast) if reply[0].ast is not None else fi.loc())
     # sending side
     fs = ctx.index.func(TLSREC + "send_keyupdate_request")
     gs = ctx.an.cfg(fs)
